@@ -4,6 +4,7 @@ package server
 
 import (
 	"math/rand"
+	"strconv"
 	"strings"
 	"time"
 )
@@ -128,6 +129,10 @@ func c01Enumerated(idx int) []Cmd {
 	}
 	for _, key := range []string{"k", "k2"} {
 		p = append(p, Cmd{Args: []string{"TYPE", key}}, Cmd{Args: []string{"SCAN", key, "LIMIT", "100000"}})
+		for c := 0; c <= 3; c++ {
+			p = append(p, Cmd{Args: []string{"SCAN", key, "CURSOR", strconv.Itoa(c), "LIMIT", "1", "IDS"}})
+		}
+		p = append(p, Cmd{Args: []string{"SCAN", key, "CURSOR", "2", "LIMIT", "2", "IDS"}}, Cmd{Args: []string{"SCAN", key, "CURSOR", "1", "LIMIT", "2", "DESC", "IDS"}})
 		for _, id := range []string{"a", "b", "e"} {
 			p = append(p, Cmd{Args: []string{"GET", key, id, "WITHFIELDS"}}, Cmd{Args: []string{"TTL", key, id}},
 				Cmd{Args: []string{"FGET", key, id, "f"}}, Cmd{Args: []string{"EXISTS", key, id}}, Cmd{Args: []string{"FEXISTS", key, id, "g"}})
